@@ -21,7 +21,7 @@ package gcrypto
 // pbits(p): signer index set; pmsg(p): signed message; pkeys(p): candidate keys; pkhash(p): key hash.
 
 //@ ghost pbits(ref) array[mathint,bool]
-//@ spec pmsg(p iface) string
+//@ spec pmsg(p iface) string reads E:Int
 //@ spec pkeys(p iface) []PubKey
 //@ spec pkhash(p iface) string
 
@@ -59,6 +59,9 @@ package gcrypto
 //@ define SInv(p) = p.bitset != nil && p.sigs != nil && p.keyIdxs != nil &&
 //@     (forall i mathint :: {bsbits(p.bitset)[i]} bsbits(p.bitset)[i] ==> 0 <= i && i < len(p.keys)) &&
 //@     (forall kb string :: {rawdom(p.keyIdxs)[kb]} kb in p.keyIdxs ==> 0 <= p.keyIdxs[kb] && p.keyIdxs[kb] < len(p.keys) && keybytes(p.keys[p.keyIdxs[kb]]) == kb)
+// The model fields of a Simple proof are its representation (definition of the model on this concrete type).
+//@ axiom simple-repr-keys: forall x SimpleCommonMessageSignatureProof :: {asiface(x)} pkeys(asiface(x)) == x.keys && pkhash(asiface(x)) == x.keyHash
+//@ axiom simple-repr-msg: forall x SimpleCommonMessageSignatureProof :: {pmsg(asiface(x))} pmsg(asiface(x)) == bytes(x.msg)
 //@ define SCoupling(self, p) = pmsg(self) == bytes(p.msg) && pkeys(self) == p.keys && pkhash(self) == p.keyHash
 
 //@ func SimpleCommonMessageSignatureProof.AddSignature
@@ -134,3 +137,12 @@ package gcrypto
 //@   option implements CommonMessageSignatureProof.HasSparseKeyID
 //@   requires SInv(p) && SCoupling(self, p)
 //@   represents pbits(self) == bsbits(p.bitset)
+
+//@ func SimpleCommonMessageSignatureProof.Clone
+//@   property C13 C11
+//@   option implements CommonMessageSignatureProof.Clone
+//@   requires SInv(p) && SCoupling(self, p)
+//@   represents pbits(self) == bsbits(p.bitset)
+//@   establishes pbits(result) == bsbits(unbox(result, SimpleCommonMessageSignatureProof).bitset)
+//@   ensures independent-bitset: fresh(unbox(result, SimpleCommonMessageSignatureProof).bitset) && fresh(unbox(result, SimpleCommonMessageSignatureProof).sigs)
+//@   modifies nothing
